@@ -100,7 +100,7 @@ class C21(Prop):
     id = "C21"
     props_file = "Props/C21.v"
     preamble = ("From Coq Require Import List ZArith.\nImport ListNotations.\n"
-                "From PP Require Import Model.C21.\nOpen Scope Z_scope.\n")
+                "From PP Require Import Model.C21 Model.C21_ext.\nOpen Scope Z_scope.\n")
     n_cases = (50, 600)
     design_ref = "DESIGN.md §5 C21"
     level_text = (
@@ -227,11 +227,15 @@ class C21(Prop):
             if rng.random() < 0.25 and rec["kind"] != "point":
                 k = rng.randint(1, 6)
                 rec = {"kind": "sub", "base": rec, "cells": [rng.randint(0, 10 ** 6) for _ in range(k)]}
-            mode = rng.choice(["subset", "subset", "subset", "all", "empty", "dup", "internal", "internal"])
+            mode = rng.choice(["subset", "subset", "subset", "all", "empty", "dup", "internal", "internal",
+                               "negwrap", "negwrap", "oob", "oob_internal"])
+            pmode = rng.choice(["valid", "valid", "valid", "nf", "too_big", "negative", "empty",
+                                "rows1", "rows3", "internal"])
             storage = rng.choice(["asis"] * 7 + ["cf_csr"] * 6 + ["cf_csr_unsorted"] * 3
                                  + ["fn_csr_exttags"] * 2 + ["both_csr_exttags"] * 2)
             yield {"grid": rec, "faces_mode": mode, "faces_seed": rng.randint(0, 2 ** 30),
-                   "ddim": rng.choice([1, 1, 2, 2, 3, 3, 0, -1]), "storage": storage}
+                   "ddim": rng.choice([1, 1, 2, 2, 3, 3, 0, -1]), "storage": storage,
+                   "pm_mode": pmode}
 
     # ------------------------------------------------------------------ implementation
     def _faces(self, case, g):
@@ -249,10 +253,42 @@ class C21(Prop):
             fs = rng.sample(one, rng.randint(1, len(one)))
         if mode == "dup":
             fs = fs + [rng.choice(fs) for _ in range(rng.randint(1, 3))]
-        if mode == "internal" and two:
+        if mode in ("internal", "oob_internal") and two:
             fs = fs + [rng.choice(two)]
+        if mode == "negwrap":   # numpy wraps negative row numbers
+            fs = [f - g.num_faces if rng.random() < 0.5 else f for f in fs]
+        if mode in ("oob", "oob_internal"):
+            fs = fs + [rng.choice([g.num_faces, g.num_faces + 3, -g.num_faces - 1])]
         rng.shuffle(fs)
         return fs
+
+    def _pm(self, case, g):
+        """Argument of set_periodic_map as a list of rows."""
+        import random as _r
+        rng = _r.Random(case["faces_seed"] + 17)
+        nf = g.num_faces
+        mode = case.get("pm_mode", "valid")
+        cnt = np.bincount(sps.coo_matrix(g.cell_faces).row, minlength=nf)
+        one = [int(f) for f in np.where(cnt == 1)[0]]
+        pool = one if (mode != "internal" and len(one) >= 2) else list(range(nf))
+        if nf < 2:
+            return [[], []] if mode != "rows1" else [[]]
+        k = rng.randint(1, max(1, min(3, len(pool) // 2)))
+        pick = rng.sample(pool, 2 * k) if len(pool) >= 2 * k else [rng.choice(pool) for _ in range(2 * k)]
+        rows = [pick[:k], pick[k:]]
+        if mode == "nf":
+            rows[rng.randint(0, 1)][rng.randint(0, k - 1)] = nf
+        elif mode == "too_big":
+            rows[rng.randint(0, 1)][rng.randint(0, k - 1)] = nf + rng.randint(1, 4)
+        elif mode == "negative":
+            rows[rng.randint(0, 1)][rng.randint(0, k - 1)] = -rng.randint(1, 3)
+        elif mode == "empty":
+            rows = [[], []]
+        elif mode == "rows1":
+            rows = [rows[0] + rows[1]]
+        elif mode == "rows3":
+            rows = rows + [list(rows[0])]
+        return rows
 
     def run_impl(self, case):
         g = rebuild(build(case["grid"]), case.get("storage", "asis"), case["faces_seed"])
@@ -275,6 +311,8 @@ class C21(Prop):
             out["sc"] = ["ok", [int(x) for x in s], [int(x) for x in c]]
         except ValueError:
             out["sc"] = ["err", "ValueErr"]
+        except IndexError:
+            out["sc"] = ["err", "IndexErr"]
         cn = g.cell_nodes()
         assert cn.shape == (g.num_nodes, g.num_cells)
         out["cn"] = [list(p) for p in _true_coords(cn)]
@@ -296,6 +334,24 @@ class C21(Prop):
         g.update_boundary_face_tag()
         out["tag"] = [bool(x) for x in g.tags["domain_boundary_faces"]]
         out["bf"] = [int(x) for x in g.get_boundary_faces()]
+        # set_periodic_map on the recomputed tags; state after the call (also after a failure)
+        pm = self._pm(case, g)
+        out["pm"] = pm
+        if hasattr(g, "periodic_face_map"):
+            del g.periodic_face_map
+        arr = np.array(pm, dtype=int).reshape(len(pm), -1)
+        try:
+            g.set_periodic_map(arr)
+            out["per"] = ["ok"]
+        except ValueError:
+            out["per"] = ["err", "ValueErr"]
+        except IndexError:
+            out["per"] = ["err", "IndexErr"]
+        out["per_tag"] = [bool(x) for x in g.tags["domain_boundary_faces"]]
+        out["per_assigned"] = bool(hasattr(g, "periodic_face_map"))
+        arr[:] = 0   # aliasing probe: the tags must not depend on the caller's array afterwards
+        assert out["per_tag"] == [bool(x) for x in g.tags["domain_boundary_faces"]]
+        self.stats["per_" + "_".join(out["per"])] = self.stats.get("per_" + "_".join(out["per"]), 0) + 1
         k = case["grid"]["kind"]
         self.stats[k] = self.stats.get(k, 0) + 1
         self.stats["sc_" + out["sc"][0]] = self.stats.get("sc_" + out["sc"][0], 0) + 1
@@ -348,18 +404,37 @@ class C21(Prop):
                 return "get_all_boundary_faces differs from the faces with one adjacent cell"
         elif any(res["tag"]):
             return "0-d grid has a domain boundary face"
-        # signs and cells
+        # signs and cells (numpy row indexing: -nf <= f < 0 wraps; anything else out of range)
         faces = res["faces"]
-        if all(ncell[f] == 1 for f in faces):
-            if res["sc"][0] != "ok":
-                return "signs_and_cells_of_boundary_faces raised on boundary faces"
-            for k, f in enumerate(faces):
-                c = int(np.nonzero(CF[f])[0][0])
-                if res["sc"][2][k] != c or res["sc"][1][k] != CF[f, c]:
-                    return (f"signs_and_cells: face {f} -> (sign {res['sc'][1][k]}, cell "
-                            f"{res['sc'][2][k]}), incidence says ({CF[f, c]}, {c})")
-        elif all(ncell[f] >= 1 for f in faces) and res["sc"][0] != "err":
-            return "signs_and_cells_of_boundary_faces accepted an internal face"
+        if any(not (-nf <= f < nf) for f in faces):
+            if res["sc"][0] == "ok":
+                return "signs_and_cells_of_boundary_faces accepted a face number out of range"
+        else:
+            faces = [f + nf if f < 0 else f for f in faces]
+            if all(ncell[f] == 1 for f in faces):
+                if res["sc"][0] != "ok":
+                    return "signs_and_cells_of_boundary_faces raised on boundary faces"
+                for k, f in enumerate(faces):
+                    c = int(np.nonzero(CF[f])[0][0])
+                    if res["sc"][2][k] != c or res["sc"][1][k] != CF[f, c]:
+                        return (f"signs_and_cells: face {f} -> (sign {res['sc'][1][k]}, cell "
+                                f"{res['sc'][2][k]}), incidence says ({CF[f, c]}, {c})")
+            elif all(ncell[f] >= 1 for f in faces) and res["sc"][0] != "err":
+                return "signs_and_cells_of_boundary_faces accepted an internal face"
+        # periodic map: a valid map (2 non-empty rows of face numbers) clears exactly the listed
+        # faces; an invalid one is rejected with ValueError and leaves the grid as it was
+        pm = res["pm"]
+        flat = [i for r in pm for i in r]
+        valid = len(pm) == 2 and len(flat) > 0 and all(0 <= i < nf for i in flat)
+        if valid:
+            exp = [res["tag"][f] and f not in flat for f in range(nf)]
+            if res["per"] != ["ok"] or res["per_tag"] != exp or not res["per_assigned"]:
+                return f"set_periodic_map: valid map {pm} -> {res['per']}, tags {res['per_tag']}, expected {exp}"
+        else:
+            if res["per"] != ["err", "ValueErr"]:
+                return f"set_periodic_map: invalid map {pm} (num_faces {nf}) -> {res['per']} instead of ValueError"
+            if res["per_tag"] != res["tag"] or res["per_assigned"]:
+                return f"set_periodic_map: rejected map {pm} changed the grid (periodic_face_map assigned: {res['per_assigned']})"
         # cell nodes
         CN = np.zeros((nn, nc), dtype=bool)
         for n_, c in res["cn"]:
@@ -390,18 +465,37 @@ class C21(Prop):
 
     # ------------------------------------------------------------------ Coq tie
     def coq_case(self, case, res):
+        nf = res["nf"]
         sc = res["sc"]
-        o_sc = f"(ScOk {clist(sc[1], zi)} {clist(sc[2], zi)})" if sc[0] == "ok" else "ScErr"
+        faces = res["faces"]
+        inr = all(-nf <= f < nf for f in faces)
+        # the original model has no index handling: it gets the wrapped face numbers (same
+        # outcome in numpy) or, for out-of-range lists, nothing; the extension model gets the
+        # list as passed
+        faces1 = [f + nf if f < 0 else f for f in faces] if inr else []
+        if not inr:
+            o_sc = "(ScOk [] [])"
+        else:
+            o_sc = f"(ScOk {clist(sc[1], zi)} {clist(sc[2], zi)})" if sc[0] == "ok" else "ScErr"
+        o_sc2 = (f"(Sc2Ok {clist(sc[1], zi)} {clist(sc[2], zi)})" if sc[0] == "ok"
+                 else ("Sc2ValueErr" if sc[1] == "ValueErr" else "Sc2IndexErr"))
         dv = res["div"]
         o_div = f"(DivOk {clist(dv[1], _ent)})" if dv[0] == "ok" else "DivErr"
-        term = (f"agree {zi(res['dimg'])} {cnat(res['nf'])} {cnat(res['nc'])} cf "
-                f"{clist(res['fn'], _ent)} {clist(res['faces'], zi)} {zi(case['ddim'])} "
+        term = (f"agree {zi(res['dimg'])} {cnat(nf)} {cnat(res['nc'])} cf "
+                f"{clist(res['fn'], _ent)} {clist(faces1, zi)} {zi(case['ddim'])} "
                 f"({clist(res['dense'][0], zi)}, {clist(res['dense'][1], zi)}) "
                 f"{clist(res['conn'], _pair)} {clist(res['tag'], cbool)} {o_sc} "
                 f"{clist(res['cn'], _pair)} {o_div}")
+        term = f"andb ({term}) (agree_idx {cnat(nf)} cf {clist(faces, zi)} {o_sc2})"
+        per = res["per"]
+        o_per = (f"(PerOk {clist(res['per_tag'], cbool)})" if per[0] == "ok"
+                 else ("PerValueErr" if per[1] == "ValueErr" else "PerIndexErr"))
+        pm = clist(res["pm"], lambda r: clist(r, zi))
+        term = (f"andb ({term}) (agree_per {clist(res['tag'], cbool)} {cnat(nf)} {pm} {o_per} "
+                f"{cbool(res['per_assigned'])})")
         if res["dimg"] > 0:
             # the hypothesis of the theorems holds on this real incidence
-            term = f"andb (wf_b {cnat(res['nf'])} {cnat(res['nc'])} cf) ({term})"
+            term = f"andb (wf_b {cnat(nf)} {cnat(res['nc'])} cf) ({term})"
         return f"let cf : list ent := {clist(res['cf'], _ent)} in {term}"
 
     def coq_diag(self, case, res):
